@@ -308,6 +308,184 @@ func TestStreams(t *testing.T) {
 	})
 }
 
+// ---------------------------------------------------------------- one ADTS object, many calls
+
+// OCase: a sequence of calls on ONE ADTS object (as a transmuxer keeps it for a stream):
+// set = SetASC with the frame's configuration, encode = Encode(raw), decode = Decode of a frame
+// the independent writer produced for the frame's configuration, asc = read ASC().
+type OStep struct {
+	Op string `json:"op"`
+	F  Frame  `json:"f"`
+}
+
+type OCase struct {
+	Steps []OStep `json:"steps"`
+}
+
+func objOfProfile(p uint8) uint8 { return p + 1 } // ISO 14496-3: Main=1, LC=2, SSR=3
+
+func runObject(c OCase) error {
+	ad, _ := aac.NewADTS()
+	type cfg struct{ object, sfi, ch uint8 }
+	var cur *cfg
+	type keptFrame struct {
+		step int
+		got  []byte
+		snap []byte
+		raw  []byte
+	}
+	var kept []keptFrame
+	// raw blocks are windows into one buffer of the application
+	var arena []byte
+	for _, s := range c.Steps {
+		if s.Op == "encode" {
+			arena = append(arena, s.F.raw()...)
+		}
+	}
+	arena = append(arena, "guard"...)
+	pristine := append([]byte(nil), arena...)
+	off := 0
+	checkASC := func(i int, after string) error {
+		asc := ad.ASC()
+		if uint8(asc.Object) != cur.object || uint8(asc.SampleRate) != cur.sfi || uint8(asc.Channels) != cur.ch {
+			return fmt.Errorf("step %d: ASC() after %s reports %+v, the object's configuration is object %d index %d channels %d", i, after, *asc, cur.object, cur.sfi, cur.ch)
+		}
+		return nil
+	}
+	for i, s := range c.Steps {
+		f := s.F
+		switch s.Op {
+		case "set":
+			asc := []byte{f.Object<<3 | f.SFI>>1, f.SFI<<7 | f.Ch<<3}
+			if err := ad.SetASC(asc); err != nil {
+				return fmt.Errorf("step %d: SetASC(%x): %v", i, asc, err)
+			}
+			cur = &cfg{f.Object, f.SFI, f.Ch}
+			if err := checkASC(i, "SetASC"); err != nil {
+				return err
+			}
+		case "encode":
+			if cur == nil {
+				continue
+			}
+			raw := arena[off : off+f.Len]
+			off += f.Len
+			fb, err := ad.Encode(raw)
+			if err != nil {
+				return fmt.Errorf("step %d: Encode: %v", i, err)
+			}
+			h, p, rest, err := adtsref.Parse(fb)
+			if err != nil {
+				return fmt.Errorf("step %d: ISO parser rejects the encoder output %x: %v", i, head(fb), err)
+			}
+			if h.Profile != profileOf(cur.object) || h.SFI != cur.sfi || h.Channels != cur.ch || h.FrameLength != 7+len(raw) {
+				return fmt.Errorf("step %d: Encode on an object configured with object %d index %d channels %d wrote profile %d index %d channels %d length %d (raw %d bytes)", i,
+					cur.object, cur.sfi, cur.ch, h.Profile, h.SFI, h.Channels, h.FrameLength, len(raw))
+			}
+			if !bytes.Equal(p, raw) || len(rest) != 0 {
+				return fmt.Errorf("step %d: ISO parser recovers %d payload bytes and %d trailing, want %d and 0", i, len(p), len(rest), len(raw))
+			}
+			kept = append(kept, keptFrame{i, fb, append([]byte(nil), fb...), append([]byte(nil), raw...)})
+		case "decode":
+			fb := adtsref.Write(adtsref.Header{ID: f.ID, ProtectionAbsent: f.PA, Profile: f.Profile, SFI: f.SFI, Channels: f.Ch, CRC: f.CRC}, f.raw())
+			raw, left, err := ad.Decode(fb)
+			if err != nil {
+				return fmt.Errorf("step %d: Decode: %v", i, err)
+			}
+			if !bytes.Equal(raw, f.raw()) || len(left) != 0 {
+				return fmt.Errorf("step %d: decoded %d raw bytes and %d left, want %d and 0", i, len(raw), len(left), f.Len)
+			}
+			cur = &cfg{objOfProfile(f.Profile), f.SFI, f.Ch}
+			if err := checkASC(i, "Decode"); err != nil {
+				return err
+			}
+		case "asc":
+			if cur == nil {
+				continue
+			}
+			if err := checkASC(i, "earlier calls"); err != nil {
+				return err
+			}
+		}
+	}
+	for _, k := range kept {
+		if !bytes.Equal(k.got, k.snap) {
+			return fmt.Errorf("the frame returned by Encode at step %d (%d raw bytes) changed during later calls: %x, was %x", k.step, len(k.raw), head(k.got), head(k.snap))
+		}
+	}
+	if !bytes.Equal(arena, pristine) {
+		return fmt.Errorf("Encode changed the application's buffer around the raw block it was given")
+	}
+	return nil
+}
+
+var recObject = ev.New(prop, "adts-object-machine",
+	"rapid-generated sequences of 2-12 calls on ONE ADTS object: SetASC (accepted configurations, repeats included), Encode (raw blocks cut from one application buffer; short blocks favoured), "+
+		"Decode of frames by the independent ISO writer with other configurations, ASC(); model = the configuration last set or decoded; oracle: every encoded header and every ASC() report follows the model, "+
+		"frames returned earlier and the application buffer stay unchanged; non-trivial = a Decode between a SetASC and a later SetASC/Encode, or >=2 Encodes").
+	Require("set-after-decode", "encode-after-decode", "two-encodes", "repeated-set")
+
+func TestObjectMachine(t *testing.T) {
+	ev.Rapid(t, "adts-object-machine", 6000, 4000000, func(t *rapid.T) {
+		var c OCase
+		n := rapid.IntRange(2, 12).Draw(t, "n")
+		cfgs := make([]Frame, rapid.IntRange(1, 3).Draw(t, "ncfg")) // few configurations, so repeats happen
+		for i := range cfgs {
+			cfgs[i] = Frame{Object: rapid.SampledFrom([]uint8{1, 2, 3, 5, 29}).Draw(t, "obj"), SFI: uint8(rapid.IntRange(1, 12).Draw(t, "sfi")), Ch: uint8(rapid.IntRange(1, 7).Draw(t, "ch"))}
+			cfgs[i].Profile = profileOf(cfgs[i].Object)
+		}
+		for i := 0; i < n; i++ {
+			op := rapid.SampledFrom([]string{"set", "encode", "encode", "decode", "asc"}).Draw(t, "op")
+			if i == 0 {
+				op = "set"
+			}
+			f := rapid.SampledFrom(cfgs).Draw(t, "cfg")
+			f.Fill = rapid.Uint64().Draw(t, "fill")
+			f.Len = rapid.SampledFrom([]int{1, 2, 1, 2, 3, 8, 300, 8184}).Draw(t, "len")
+			if op == "decode" {
+				f.ID = uint8(rapid.IntRange(0, 1).Draw(t, "id"))
+				f.PA = uint8(rapid.IntRange(0, 1).Draw(t, "pa"))
+				f.CRC = rapid.Uint16().Draw(t, "crc")
+				if f.PA == 0 && f.Len > 8182 {
+					f.Len = 8182
+				}
+			}
+			c.Steps = append(c.Steps, OStep{op, f})
+		}
+		var cl []string
+		seenDecode, encodes := false, 0
+		var lastSet *Frame
+		for i := range c.Steps {
+			s := c.Steps[i]
+			switch s.Op {
+			case "decode":
+				seenDecode = true
+			case "set":
+				if seenDecode {
+					cl = append(cl, "set-after-decode")
+				}
+				if lastSet != nil && lastSet.Object == s.F.Object && lastSet.SFI == s.F.SFI && lastSet.Ch == s.F.Ch {
+					cl = append(cl, "repeated-set")
+				}
+				lastSet = &c.Steps[i].F
+			case "encode":
+				encodes++
+				if seenDecode {
+					cl = append(cl, "encode-after-decode")
+				}
+			}
+		}
+		if encodes >= 2 {
+			cl = append(cl, "two-encodes")
+		}
+		err := ev.Try(func() error { return runObject(c) })
+		recObject.Case(len(cl) > 0, ev.Hash(c), cl, func() any { return c })
+		if err != nil {
+			fail(t, "adts-object-machine", c, err)
+		}
+	})
+}
+
 func replayers() map[string]ev.Replayer {
 	return map[string]ev.Replayer{
 		"asc": func(raw json.RawMessage) error {
@@ -316,6 +494,13 @@ func replayers() map[string]ev.Replayer {
 				return err
 			}
 			return checkASC(c)
+		},
+		"adts-object-machine": func(raw json.RawMessage) error {
+			var c OCase
+			if err := json.Unmarshal(raw, &c); err != nil {
+				return err
+			}
+			return runObject(c)
 		},
 		"adts": func(raw json.RawMessage) error {
 			var c FCase
